@@ -21,7 +21,6 @@ var builtInOpers = []oper.Operator{
 func newLexicon(ops []oper.Operator) lexicon {
 	l := lexicon{}
 
-	l.addRule(str(token.COLON)) // :
 	l.addRule(str(token.COMMA)) // ,
 
 	l.addRule(str(token.LEFT_PAREN))    // (
@@ -44,6 +43,10 @@ func newLexicon(ops []oper.Operator) lexicon {
 	for _, op := range oper.Sort(ops) {
 		l.addOper(op.Kind)
 	}
+
+	// ':' is also an operator character: it comes after the registered
+	// operators, so that a longer operator such as '::' or ':=' is not split
+	l.addRule(str(token.COLON)) // :
 
 	l.addRule(keyword(token.TRUE))  // true, as a whole word only
 	l.addRule(keyword(token.FALSE)) // false, as a whole word only
